@@ -158,6 +158,10 @@ def run_fi(inp):
     rows = np.array([Q.decf(r) for r in inp["rows"]]).reshape(tuple(inp["shape"]) + (inp["k"], n))
     with Capture(core, "kernel") as cap, Capture(np.linalg, "svd") as scap:
         out = utils.find_isometry(B, rows.copy(), inp["force_oriented"])
+    if len(cap.calls) != 1 or len(scap.calls) != 1:
+        # the library did not go through utils.kernel / numpy.linalg.svd exactly once (it is free to): only the contract of the
+        # result is checked, not the model's reconstruction from the captured kernel
+        return {"shape": list(out.shape), "out": L.units(out, 2).tolist(), "dets": np.linalg.det(L.units(out, 2)).tolist(), "nocapture": True}
     (args, ker), = cap.calls
     (_, (su, ss, svh)), = scap.calls
     ker = np.asarray(ker, dtype=float).swapaxes(-1, -2)      # rows
@@ -173,6 +177,8 @@ def lean_fi(inp, obs):
         return []
     ops = []
     n = sum(inp["sig"])
+    if obs.get("nocapture"):
+        return [{"op": "c18.gram", "form": inp["B"], "rows": L.fenc(np.array(o))} for o in obs["out"]]
     for r, k, kin, o, su, ss, svh in zip(inp["rows"], obs["ker"], obs["kin"], obs["out"], obs["u"], obs["s"], obs["vh"]):
         # the SVD contract assumed by findIsometry_isIso_svd, on the call find_isometry actually made
         ops.append({"op": "c18.kernel_residual", "A": kin, "n": n, "N": k, "u": su, "s": ss, "vh": svh})
@@ -191,6 +197,17 @@ def judge_fi(inp, obs, lr):
     n = sum(inp["sig"])
     if obs["shape"] != inp["shape"] + [n, n]:
         return {"expected": inp["shape"] + [n, n], "observed": obs["shape"], "tags": dict(tags, shape=True), "property_failure": True}
+    if obs.get("nocapture"):
+        for u, gram in enumerate(lr):
+            if "err" in gram:
+                return {"expected": "model answer", "observed": gram, "tags": dict(tags, driver_err=gram["err"])}
+            g = gram["ok"]
+            if max(float(F(g["offdiag"])), float(F(g["diag"]))) > 1e-8:
+                return {"expected": "M F Mᵀ diagonal with entries ±1 (exact residual ≤ 1e-8)", "observed": g, "tags": dict(tags, residual=True),
+                        "property_failure": True}
+            if inp["force_oriented"] and not obs["dets"][u] > 0:
+                return {"expected": "det > 0", "observed": obs["dets"][u], "tags": dict(tags, orientation=True), "property_failure": True}
+        return None
     if obs["kshape"] != inp["shape"] + [n - inp["k"], n]:
         return {"expected": "kernel basis with n-k rows", "observed": obs["kshape"], "tags": dict(tags, kernel_dim=True), "property_failure": True}
     for u in range(len(inp["rows"])):
@@ -265,19 +282,24 @@ def run_diag(inp):
     with Capture(core, "eigh") as cap:
         res = utils.diagonalize_form(B.copy(), order_eigenvalues=inp["mode"], reverse=inp["reverse"],
                                      with_inverse=inp["with_inverse"])
-    (_, (eigs, U)), = cap.calls
     if inp["with_inverse"]:
         W, Wi = res
     else:
         W, Wi = res, np.linalg.inv(res)
-    return {"shape": list(np.asarray(W).shape), "W": L.units(W, 2).tolist(), "Winv": L.units(Wi, 2).tolist(),
-            "eigs": L.units(eigs, 1).tolist(), "U": L.units(U, 2).tolist(), "tuple": isinstance(res, tuple)}
+    out = {"shape": list(np.asarray(W).shape), "W": L.units(W, 2).tolist(), "Winv": L.units(Wi, 2).tolist(), "tuple": isinstance(res, tuple)}
+    if len(cap.calls) == 1:       # otherwise (e.g. the library answered without calling eigh) only the contract of the result is checked
+        (_, (eigs, U)), = cap.calls
+        out.update(eigs=L.units(eigs, 1).tolist(), U=L.units(U, 2).tolist())
+    return out
 
 
 def lean_diag(inp, obs):
     if "exc" in obs:
         return []
     ops = []
+    if "U" not in obs:
+        return [{"op": "c18.diag_residual", "B": f, "W": L.fenc(np.array(W)), "Winv": L.fenc(np.array(Wi))}
+                for f, W, Wi in zip(inp["forms"], obs["W"], obs["Winv"])]
     for f, W, Wi, e, U in zip(inp["forms"], obs["W"], obs["Winv"], obs["eigs"], obs["U"]):
         ops.append({"op": "c18.diag_residual", "B": f, "W": L.fenc(np.array(W)), "Winv": L.fenc(np.array(Wi)),
                     "U": L.fenc(np.array(U)), "eigs": L.fenc(np.array(e))})
@@ -293,13 +315,14 @@ def judge_diag(inp, obs, lr):
     nn = inp["n"]
     if obs["shape"] != inp["shape"] + [nn, nn] or obs["tuple"] != inp["with_inverse"]:
         return {"expected": inp["shape"] + [nn, nn], "observed": obs["shape"], "tags": dict(tags, shape=True), "property_failure": True}
+    captured = "U" in obs
     for u in range(len(inp["forms"])):
-        rr, oo = lr[2 * u], lr[2 * u + 1]
+        rr, oo = (lr[2 * u], lr[2 * u + 1]) if captured else (lr[u], None)
         for res in (rr, oo):
-            if "err" in res:
+            if res is not None and "err" in res:
                 return {"expected": "model answer", "observed": res, "tags": dict(tags, driver_err=res["err"])}
         r = {k: (float(F(v)) if isinstance(v, str) else v) for k, v in rr["ok"].items()}
-        if max(r["eigh_diag"], r["eigh_orth"]) > 1e-9 * 40:
+        if captured and max(r["eigh_diag"], r["eigh_orth"]) > 1e-9 * 40:
             return {"expected": "eigh contract UᵀBU = diag eigs, UᵀU = 1", "observed": r, "tags": dict(tags, lapack_contract=True)}
         if max(r["offdiag"], r["diag"], r["inv"]) > 1e-9:
             return {"expected": "WᵀBW = diag(±1), W·Winv = 1 (exact residuals ≤ 1e-9)", "observed": r,
@@ -308,6 +331,8 @@ def judge_diag(inp, obs, lr):
         want = expected_signs(inp["sigs"][u], inp["mode"], inp["reverse"])
         if signs != want:
             return {"expected": {"signs": want}, "observed": {"signs": signs}, "tags": dict(tags, order=True), "property_failure": True}
+        if not captured:
+            continue
         # by value, modulo ties (np.argsort is not stable): column i of W is column perm[i] of U / sqrt|eig| for a
         # permutation perm along which the model's sort key takes the same values as along the model's order
         order, key = oo["ok"]["order"], [F(x) for x in oo["ok"]["key"]]
@@ -395,15 +420,19 @@ def run_kernel(inp):
             rows = np.asarray(N).swapaxes(-1, -2)
         else:
             rows = np.asarray(utils.orthogonal_complement(A.copy(), normalize=None))
-    (_, (u, s, vh)), = cap.calls
-    return {"shape": list(rows.shape), "N": [L.fenc(x) for x in L.units(rows, 2)],
-            "u": [L.fenc(x) for x in L.units(u, 2)], "s": [L.fenc(x) for x in L.units(s, 1)], "vh": [L.fenc(x) for x in L.units(vh, 2)]}
+    out = {"shape": list(rows.shape), "N": [L.fenc(x) for x in L.units(rows, 2)]}
+    if len(cap.calls) == 1:
+        (_, (u, s, vh)), = cap.calls
+        out.update(u=[L.fenc(x) for x in L.units(u, 2)], s=[L.fenc(x) for x in L.units(s, 1)], vh=[L.fenc(x) for x in L.units(vh, 2)])
+    return out
 
 
 def lean_kernel(inp, obs):
     if "exc" in obs:
         return []
     ops = []
+    if "vh" not in obs:        # no single svd call to capture: residuals of the returned basis only
+        return [{"op": "c18.kernel_residual", "A": a, "n": inp["n"], "N": N} for a, N in zip(inp["A"], obs["N"])]
     for a, N, u, s, vh in zip(inp["A"], obs["N"], obs["u"], obs["s"], obs["vh"]):
         ops.append({"op": "c18.svd_kernel", "m": inp["m"], "s": s, "tol": Q.qs(1e-8), "vh": vh})
         ops.append({"op": "c18.kernel_residual", "A": a, "n": inp["n"], "N": N, "u": u, "s": s, "vh": vh})
@@ -419,16 +448,17 @@ def judge_kernel(inp, obs, lr):
     if obs["shape"] != inp["shape"] + [kd, inp["n"]]:
         return {"expected": f"{kd} basis vectors of length {inp['n']}", "observed": obs["shape"], "tags": dict(tags, dimension=True),
                 "property_failure": True}
+    captured = "vh" in obs
     for u in range(len(inp["A"])):
-        sel, rr = lr[2 * u], lr[2 * u + 1]
+        sel, rr = (lr[2 * u], lr[2 * u + 1]) if captured else (None, lr[u])
         for res in (sel, rr):
-            if "err" in res:
+            if res is not None and "err" in res:
                 return {"expected": "model answer", "observed": res, "tags": dict(tags, driver_err=res["err"])}
         r = {k: (float(F(v)) if isinstance(v, str) else v) for k, v in rr["ok"].items()}
-        if max(r["svd_recon"], r["svd_orth"]) > 1e-9 * 40 or not r["svd_sorted"] or r["svd_len"] != min(inp["m"], inp["n"]):
+        if captured and (max(r["svd_recon"], r["svd_orth"]) > 1e-9 * 40 or not r["svd_sorted"] or r["svd_len"] != min(inp["m"], inp["n"])):
             return {"expected": "svd contract A = uΣvh, u uᵀ = vh vhᵀ = 1, s ≥ 0 descending, len(s) = min(m,n)", "observed": r,
                     "tags": dict(tags, lapack_contract=True)}
-        if sel["ok"] != obs["N"][u]:
+        if captured and sel["ok"] != obs["N"][u]:
             return {"expected": {"selected rows of vh": sel["ok"]}, "observed": obs["N"][u], "tags": dict(tags, selection=True)}
         if max(r["ann"], r["orth"]) > 1e-9 * 40 or r["count"] != kd:
             return {"expected": "A·N = 0, NᵀN = 1, n − rank columns (exact residuals)", "observed": r, "tags": dict(tags, residual=True),
@@ -943,8 +973,7 @@ PURE_FNS = ["diagonalize_form", "kernel", "orthogonal_complement", "sphere_throu
 
 
 def _pure_args(rng, fn, variant=0):
-    """random float arguments for a helper; the rows argument of the two Gram–Schmidt helpers is consumed in place by the
-    library (clean-tree behaviour), every other argument must come back unchanged"""
+    """random float arguments for a helper; every argument must come back unchanged (third component: indices exempt from that)"""
     g = lambda *sh: np.array([rng.gauss(0, 1) for _ in range(int(np.prod(sh)))]).reshape(sh)
     n = rng.randint(2, 5)
     b = rng.choice([(), (), (2,), (3,)])
@@ -977,7 +1006,7 @@ def _pure_args(rng, fn, variant=0):
             mins = [[np.linalg.det(Gi[:j, :j]) for j in range(1, k + 1)] for Gi in G]
             if all(min(abs(x) for x in [m[0]] + [m[j] / m[j - 1] for j in range(1, k)]) > 0.05 for m in mins):
                 break
-        return [B, rows], ({"force_oriented": rng.random() < 0.5} if fn == "find_isometry" else {}), [1]
+        return [B, rows], ({"force_oriented": rng.random() < 0.5} if fn == "find_isometry" else {}), []
     if fn == "make_orientation_preserving":
         return [g(*(b + (n, n)))], {}, []
     raise ValueError(fn)
@@ -1048,6 +1077,139 @@ def judge_purity(inp, obs, lr):
     return None
 
 
+# ------------------------------------------------------------------------------------------------
+# Integer packagings: every helper fed integer-valued data as integer arrays / nested lists of Python ints, wherever the
+# library accepts them, must return what it returns for the float64 array of the same values (never a silently different answer)
+# ------------------------------------------------------------------------------------------------
+INT_FNS = ["diagonalize_form", "kernel", "orthogonal_complement", "orthogonal_complement_form", "sphere_through", "circle_through",
+           "short_arc", "right_to_left", "arc_include", "circle_angles", "indefinite_orthogonalize", "find_isometry",
+           "make_orientation_preserving"]
+# combinations that must work (measured on the repaired tree); elsewhere raising is accepted, a different answer is not
+INT_ACCEPTED = {(f, p_) for f in INT_FNS for p_ in ("int64", "int32") if f != "short_arc"} | \
+    {("circle_through", "list_int"), ("circle_angles", "list_int")}
+
+
+def int_form(rng, n):
+    while True:
+        A = np.array([[rng.randint(-3, 3) for _ in range(n)] for _ in range(n)])
+        B = A + A.T
+        ev = np.linalg.eigvalsh(B.astype(float))
+        gaps = np.diff(np.sort(ev))
+        if np.min(np.abs(ev)) > 0.3 and (n == 1 or np.min(gaps) > 0.1):
+            return B
+
+
+def gen_intpack(rng, n):
+    made = 0
+    while made < n:
+        fn = rng.choice(INT_FNS)
+        pack = rng.choice(["int64", "int64", "int32", "list_int"])
+        nn = rng.randint(2, 4)
+        b = rng.choice([[], [], [2]])
+        cntb = cnt(b)
+        ri = lambda lo, hi, *sh: np.array([rng.randint(lo, hi) for _ in range(int(np.prod(sh)))]).reshape(sh)
+        kw = {}
+        if fn == "diagonalize_form":
+            args = [np.array([int_form(rng, nn) for _ in range(cntb)]).reshape(tuple(b) + (nn, nn))]
+            kw = {"order_eigenvalues": rng.choice(["signed", "minkowski"]), "reverse": rng.random() < 0.5}
+        elif fn in ("kernel", "orthogonal_complement", "orthogonal_complement_form"):
+            m = rng.randint(1, nn)
+            A = ri(-3, 3, *(b + [m, nn]))
+            if any(np.linalg.matrix_rank(x.astype(float)) < m for x in L.units(A, 2)):
+                continue
+            args = [A]
+            if fn == "orthogonal_complement":
+                kw = {"normalize": None}
+            if fn == "orthogonal_complement_form":
+                G = ri(-2, 2, nn, nn)
+                args.append(G @ G.T + np.eye(nn, dtype=int))       # positive definite integer form
+                kw = {"normalize": rng.choice([None, "form"])}
+        elif fn == "sphere_through":
+            P = ri(-4, 4, *(b + [nn, nn - 1]))
+            if any(abs(np.linalg.det((x[1:] - x[0]).astype(float))) < 0.5 for x in L.units(P, 2)):
+                continue
+            args = [P]
+        elif fn == "circle_through":
+            P = ri(-4, 4, *(b + [3, 2]))
+            if any(abs(np.linalg.det((x[1:] - x[0]).astype(float))) < 0.5 for x in L.units(P, 2)):
+                continue
+            args = [P[..., 0, :], P[..., 1, :], P[..., 2, :]]
+        elif fn in ("short_arc", "right_to_left", "arc_include"):
+            lim = 6 if fn == "short_arc" else 3
+            T = ri(-lim, lim, *(b + [2]))
+            ref = ri(-3, 3, *b) if b else np.array(rng.randint(-3, 3))
+            if fn == "short_arc" and any(abs(abs((x[0] + (6.283185307179586 if x[0] < 0 else 0)) - (x[1] + (6.283185307179586 if x[1] < 0 else 0))) - PI) < 1e-6
+                                         for x in L.units(T, 1)):
+                continue
+            if fn == "right_to_left" and any(abs(math.cos(x[0]) - math.cos(x[1])) < 1e-9 for x in L.units(T, 1)):
+                continue
+            args = [T] + ([ref] if fn == "arc_include" else [])
+        elif fn == "circle_angles":
+            c = ri(-3, 3, *(b + [2]))
+            P = ri(-5, 5, *(b + [3, 2]))
+            if np.any(np.all(P == c[..., None, :], axis=-1)):
+                continue
+            args = [c, P]
+        elif fn in ("indefinite_orthogonalize", "find_isometry"):
+            B = int_form(rng, nn)
+            k = rng.randint(1, nn)
+            rows = ri(-3, 3, *(b + [k, nn]))
+            ok = True
+            for x in L.units(rows, 2):
+                g = L.gs_exact([[F(int(v)) for v in r] for r in B], [[F(int(v)) for v in r] for r in x])
+                if not g or any(abs(q) < F(1, 8) for q in g[1]):
+                    ok = False
+            if not ok:
+                continue
+            args = [B, rows]
+            if fn == "find_isometry":
+                kw = {"force_oriented": rng.random() < 0.5}
+        else:
+            M = ri(-3, 3, *(b + [nn, nn]))
+            if any(abs(np.linalg.det(x.astype(float))) < 0.5 for x in L.units(M, 2)):
+                continue
+            args = [M]
+        made += 1
+        yield {"fn": fn, "pack": pack, "args": [a.tolist() for a in args], "kw": kw}
+
+
+def run_intpack(inp):
+    fn = inp["fn"]
+    f = getattr(utils, "orthogonal_complement" if fn == "orthogonal_complement_form" else fn)
+    ref = f(*[np.array(a, dtype=np.float64) for a in inp["args"]], **inp["kw"])
+    ref = [np.asarray(x, dtype=float) for x in (ref if isinstance(ref, tuple) else (ref,))]
+    if inp["pack"] == "list_int":
+        packed = [a for a in inp["args"]]            # nested lists of Python ints (a scalar stays a Python int)
+    else:
+        packed = [np.array(a, dtype=inp["pack"]) for a in inp["args"]]
+    snap = [np.array(a, copy=True) for a in packed]
+    try:
+        out = f(*packed, **inp["kw"])
+    except Exception as e:
+        return {"raised": type(e).__name__, "msg": str(e)[:120]}
+    out = [np.asarray(x, dtype=float) for x in (out if isinstance(out, tuple) else (out,))]
+    same_shape = len(out) == len(ref) and all(x.shape == y.shape for x, y in zip(out, ref))
+    dev = max([float(np.max(np.abs(x - y)) / (1 + np.max(np.abs(y)))) for x, y in zip(out, ref) if x.size] + [0.0]) if same_shape else float("inf")
+    changed = max([float(np.max(np.abs(np.asarray(a, dtype=float) - np.asarray(b_, dtype=float)))) for a, b_ in zip(packed, snap) if np.size(a)] + [0.0])
+    return {"dev": dev, "changed": changed, "finite": bool(all(finite(x) for x in out))}
+
+
+def judge_intpack(inp, obs, lr):
+    tags = {"fn": inp["fn"], "packaging": inp["pack"], "int_packaging": True}
+    if "exc" in obs:
+        return {"expected": "the float64 reference computation succeeds", "observed": obs, "tags": dict(tags, reference=True)}
+    if "raised" in obs:
+        if (inp["fn"], inp["pack"]) in INT_ACCEPTED:
+            return {"expected": "integer data accepted here (same answer as for the float64 array of the same values)", "observed": obs,
+                    "tags": dict(tags, exc=obs["raised"])}
+        return None          # refusing loudly is acceptable where the library never took this packaging
+    if not (obs["dev"] <= 1e-9 and obs["finite"]):
+        return {"expected": "the same answer as for the float64 array of the same values", "observed": obs, "tags": dict(tags, truncated=True)}
+    if obs["changed"] > 0:
+        return {"expected": "arguments not modified", "observed": obs, "tags": dict(tags, input_isolation=True)}
+    return None
+
+
 CLAUSES = [
     Clause("gs_corr", "corr", gen_gs, run_gs, judge_gs, lean=lean_gs, site="utils.indefinite_orthogonalize",
            budget={"quick": 160, "thorough": 4000},
@@ -1085,6 +1247,9 @@ CLAUSES = [
     Clause("svd_options_oracle", "oracle", gen_svdopt, run_svdopt, judge_svdopt, site="numerical.svd_kernel",
            budget={"quick": 200, "thorough": 5000},
            what="svd_kernel(assume_full_rank=True) and svd_kernel(matching_rank=False, with_dimensions, with_loc) on batches of mixed rank incl. trivial kernels: per-rank bases annihilated, orthonormal, n − rank columns"),
+    Clause("int_packaging_oracle", "oracle", gen_intpack, run_intpack, judge_intpack, site="utils helpers (integer arrays / nested lists of ints)",
+           budget={"quick": 400, "thorough": 10000},
+           what="every helper on integer-valued data given as int64 / int32 arrays and nested lists of Python ints: where the library accepts the packaging the answer equals the float64 answer (a refusal is tolerated only where it never accepted it; a silently different answer never)"),
     Clause("purity_oracle", "oracle", gen_purity, run_purity, judge_purity, site="utils helpers (isolation / statelessness / dtype)",
            budget={"quick": 300, "thorough": 8000},
            what="G2–G4 for every helper: arguments (incl. non-contiguous views) come back unchanged, the answer is bit-identical when asked again after the same and other helpers ran on unrelated data and after the first result was overwritten in place, float32 inputs agree with float64"),
